@@ -2098,9 +2098,15 @@ func (s *BgpServer) handleFSMMessage(peer *peer, e *fsmMsg) {
 		if peer.AdminState() == adminStateDown {
 			peer.fsm.lock.Lock()
 			conf := peer.fsm.pConf.ReadCopy()
+			// the state counters are reset; the copies of the configuration kept in
+			// the state are not counters: they are only ever set when the neighbor is
+			// configured, and the PeerInfo of the next session is built from them
+			localAs, removePrivateAs := conf.State.LocalAs, conf.State.RemovePrivateAs
 			conf.State = oc.NeighborState{}
 			conf.State.NeighborAddress = conf.Config.NeighborAddress
 			conf.State.PeerAs = conf.Config.PeerAs
+			conf.State.LocalAs = localAs
+			conf.State.RemovePrivateAs = removePrivateAs
 			// the session state is not a counter: the next state change
 			// reports it as its old state
 			conf.State.SessionState = oc.IntToSessionStateMap[int(nextState)]
